@@ -324,6 +324,61 @@ static void rbh_flush_mock(TickitRenderBuffer *rb, int tl, int tc, int gl, int g
   tickit_mockterm_destroy(mt);
 }
 
+/* the sentinel pattern on a fresh mock terminal */
+static void rbh_sentinel(TickitTerm *tt, int tl, int tc)
+{
+  for(int l = 0; l < tl; l++) {
+    tickit_term_goto(tt, l, 0);
+    for(int c = 0; c < tc; c++) {
+      TickitPen *sp = tickit_pen_new();
+      tickit_pen_set_colour_attr(sp, TICKIT_PEN_FG, 16 + (l + 2 * c) % 5);
+      tickit_term_setpen(tt, sp);
+      tickit_pen_unref(sp);
+      char ch[2] = { 'a' + (l * 7 + c * 3) % 26, 0 };
+      tickit_term_print(tt, ch);
+    }
+  }
+}
+
+static void rbh_putgrid(TickitMockTerm *mt, int tl, int tc)
+{
+  for(int l = 0; l < tl; l++) {
+    if(l) putchar('/');
+    for(int c = 0; c < tc; c++) {
+      if(c) putchar(',');
+      size_t need = tickit_mockterm_get_display_text(mt, NULL, 0, l, c, 1);
+      char *buf = malloc(need + 1);
+      tickit_mockterm_get_display_text(mt, buf, need + 1, l, c, 1);
+      rbh_putcps((unsigned char *)buf, need);
+      free(buf);
+      putchar(':');
+      rbh_putpen_canon(tickit_mockterm_get_display_pen(mt, l, c));
+    }
+  }
+}
+
+/* tp tl tc gl gc text: print `text` (exact length, no NUL appended) on a tl x tc mock terminal
+ * showing the sentinel pattern with its cursor at (gl, gc), through the mock driver's own print
+ * (no validity wrapper); prints P{cursor line.col}{final grid} */
+static void rbh_term_print(int tl, int tc, int gl, int gc, const char *textspec)
+{
+  TickitMockTerm *mt = tickit_mockterm_new(tl, tc);
+  TickitTerm *tt = (TickitTerm *)mt;
+  rbh_sentinel(tt, tl, tc);
+  tickit_term_goto(tt, gl, gc);
+  TickitPen *prior = tickit_pen_new();
+  tickit_term_setpen(tt, prior);
+  tickit_pen_unref(prior);
+  size_t len; char *b = rbh_text(textspec, &len, NULL, false);
+  tickit_term_printn(tt, b, len);
+  free(b);
+  MockTermDriver *mtd = (MockTermDriver *)tickit_term_get_driver(tt);
+  printf("P{%d.%d}{", mtd->line, mtd->col);
+  rbh_putgrid(mt, tl, tc);
+  printf("}");
+  tickit_mockterm_destroy(mt);
+}
+
 /* flx tl tc: flush through the xterm driver into a byte buffer; prints X{payload}, the bytes
  * received with control sequences stripped, as code points */
 typedef struct { unsigned char *b; size_t n, cap; } RbhBytes;
@@ -446,6 +501,7 @@ static void rbh_run_case(void)
     else if(!strcmp(kw, "fl")) { rbh_tok(); rbh_flush_mock(rb, ARG(0), ARG(1), ARG(2), ARG(3), vh_tok[p + 4], 1); p += 5; }
     else if(!strcmp(kw, "flm")) { rbh_tok(); rbh_flush_mock(rb, ARG(0), ARG(1), ARG(2), ARG(3), vh_tok[p + 4], 0); p += 5; }
     else if(!strcmp(kw, "flx")) { rbh_tok(); rbh_flush_xterm(rb, ARG(0), ARG(1)); p += 2; }
+    else if(!strcmp(kw, "tp")) { rbh_tok(); rbh_term_print(ARG(0), ARG(1), ARG(2), ARG(3), vh_tok[p + 4]); p += 5; }
     else if(!strcmp(kw, "lct")) {
       rbh_tok(); printf("L{");
       for(int i = 0; i < 256; i++) printf(i ? ".%x" : "%x", (unsigned)linemask_to_char[i]);
